@@ -20,3 +20,44 @@ DIGITS = "0123456789"
 
 def rstr(rng, alphabet, lo, hi):
     return "".join(rng.choice(alphabet) for _ in range(rng.randint(lo, hi)))
+
+
+def api_consistency(obj, new, text, dump_kwargs=None):
+    """the same object through every entry point: dump(path), dump(file object), dumps(), a second dumps();
+    load(path), load(file object), loads().  Returns a list of inconsistencies (empty when all agree)."""
+    import os
+    import shutil
+    import tempfile
+    kw = dump_kwargs or {}
+    problems = []
+    work = tempfile.mkdtemp(prefix="api-", dir=os.path.join(VERIF, ".work"))
+    try:
+        p1, p2 = os.path.join(work, "by-path"), os.path.join(work, "by-file")
+        obj.dump(p1, **kw)
+        with open(p2, "w") as f:
+            obj.dump(f, **kw)
+        a, b = open(p1).read(), open(p2).read()
+        if a != text:
+            problems.append("dump(path) writes other bytes than dumps()")
+        if b != text:
+            problems.append("dump(file object) writes other bytes than dumps()")
+        if obj.dumps(**kw) != text:
+            problems.append("a second dumps() differs from the first")
+        outs = []
+        for how in ("path", "file", "loads"):
+            o = new()
+            if how == "path":
+                o.load(p1)
+            elif how == "file":
+                with open(p1) as f:
+                    o.load(f)
+            else:
+                o.loads(text)
+            outs.append(o.dumps())
+        if len(set(outs)) != 1:
+            problems.append("load(path), load(file object) and loads() give different objects")
+    except Exception as e:
+        problems.append("an API entry point raised %s: %s" % (type(e).__name__, str(e)[:100]))
+    finally:
+        shutil.rmtree(work, ignore_errors=True)
+    return problems
